@@ -84,7 +84,8 @@ class DiffOperator(operator.Operator, abc.ABC):
 
         def move(coeff):
             if 0 < np.ndim(coeff) <= rank:
-                return common.set_axes(0, np.asarray(coeff), axes)
+                own = axes if isinstance(axes, int) else tuple(axes)[: np.ndim(coeff)]
+                return common.set_axes(0, np.asarray(coeff), own)
             return coeff
 
         self.order1 = {
